@@ -146,15 +146,20 @@ def AttrDecl.wf (d : AttrDecl) : Bool :=
   (d.use ≠ .prohibited || (d.default.isNone && d.fixed.isNone))
 
 /-- how the strict parser (`fail_on_unknown_attributes`) fills the field from a document: an outer
-`none` is a `ParserError` (unknown attribute; missing constructor argument). A field with
-`init=False` is never assigned: it keeps its default. -/
+`none` is a `ParserError` (unknown attribute; missing constructor argument; a value other than the
+fixed one). A field with `init=False` is never assigned, it keeps its default; the value a document
+gives for it goes through `ParserUtils.validate_fixed_value` (`ElementNode.bind_attr`) and must
+equal that default. Tied to the real parser on the generated class by the ops `gen.read_attr` /
+`gen.dtd_read_attr`. -/
 def readAttr (f : Option Field) (x : Option Str) : Option (Option Str) :=
   match f, x with
   | none, none => some none
   | none, some _ => none
   | some f, some v =>
     if f.init then some (some v) else
-      (match f.default with | .value s => some (some s) | _ => some none)
+      (match f.default with
+       | .value s => if v = s then some (some s) else none
+       | _ => some none)
   | some f, none =>
     match f.default with
     | .missing => none
